@@ -237,6 +237,8 @@ pub struct World {
     /// sparse observation mode (see `Op::SparseOutcomeQueries`)
     pub sparse_outcome: bool,
     query_now: bool,
+    /// blind burst in progress (see `Op::Blind`)
+    pub blind: bool,
 }
 
 /// Stored hash equals the from-scratch hash and every stored occupancy set matches the squares.
@@ -378,6 +380,7 @@ impl World {
             last_owner: 0,
             sparse_outcome: false,
             query_now: false,
+            blind: false,
         }
     }
 
@@ -393,7 +396,9 @@ impl World {
     /// Model view of the chain's current position (cached until the chain moves).
     pub fn info(&mut self) -> &Info {
         if self.info.is_none() {
-            self.info = Some(Info::of(self.chain.last()));
+            // during a blind burst the chain is not read: the reference replay stands in for it
+            let b = if self.blind { self.rc.replayed.last().unwrap() } else { self.chain.last() };
+            self.info = Some(Info::of(b));
         }
         self.info.as_ref().unwrap()
     }
@@ -461,6 +466,36 @@ impl World {
 
     fn exec_inner(&mut self, op: &Op) -> R {
         let r = match op {
+            Op::Blind(on) => {
+                if *on == self.blind {
+                    return Ok(Exec::Skipped);
+                }
+                self.blind = *on;
+                self.invalidate();
+                self.stats.hit(if *on { "op.blind-burst-begin" } else { "op.blind-burst-end" });
+                Ok(Exec::Done)
+            }
+            Op::Push(ml) if self.blind => self.op_push_blind(ml),
+            Op::Pop if self.blind => self.op_pop_blind(),
+            // nothing else touches (or reads) the chain during a blind burst
+            Op::PushUnchecked(_)
+            | Op::PushUciList(_)
+            | Op::SetAuto(_)
+            | Op::QueryOutcome
+            | Op::Fork
+            | Op::Construct(_)
+            | Op::EqTwin(_)
+            | Op::RebuildMoves
+            | Op::RebuildUci
+            | Op::BoardMake(_)
+            | Op::FenProbe(_)
+            | Op::RawProbe(_)
+            | Op::Read(_)
+            | Op::Spawn
+                if self.blind =>
+            {
+                Ok(Exec::Skipped)
+            }
             Op::Push(ml) => self.op_push(ml),
             Op::PushUnchecked(m) => self.op_push_unchecked(m),
             Op::PushUciList(s) => self.op_push_list(s),
@@ -513,7 +548,7 @@ impl World {
             Op::Spawn => self.op_spawn(),
             Op::S(i, s) => return self.op_searcher(*i as usize, s),
         }?;
-        if r == Exec::Done {
+        if r == Exec::Done && !self.blind {
             self.check_invariants()?;
         }
         Ok(r)
@@ -914,6 +949,9 @@ impl World {
                     ));
                 }
                 self.stats.hit("note.replay-fallback");
+                if self.blind {
+                    self.poisoned = true;
+                }
                 self.chain.last().clone()
             }
         };
@@ -1118,6 +1156,95 @@ impl World {
             },
             _ => false,
         }
+    }
+
+    /// Push during a blind burst: the library call and its result only; the position the move
+    /// is judged against is the reference replay, and nothing is read back from the chain
+    /// except - when the value does not determine the move - the one recorded move.
+    fn op_push_blind(&mut self, ml: &MoveLike) -> R {
+        if self.rc.outcome.is_some() || self.rc.len() >= MAX_CHAIN_LEN {
+            return Ok(Exec::Skipped);
+        }
+        let info = self.info().clone();
+        let basis = self.rc.replayed.last().unwrap().clone();
+        if !crate::lib_api::unsafe_like_ok(&info, &basis, ml) {
+            return Ok(Exec::Skipped);
+        }
+        let den = denote(&info.pos, &info.legal, ml);
+        let len0 = self.rc.len();
+        let res = match push_like(&mut self.chain, ml) {
+            Some(r) => r,
+            None => return Ok(Exec::Skipped),
+        };
+        let spy_res = push_like(&mut self.spy, ml).expect("constructible for one chain, not for the other");
+        if res.is_ok() != spy_res.is_ok() {
+            panic!("HARNESS: MoveChain and BaseMoveChain<SpyRepeat> disagree on {}", ml.pretty());
+        }
+        match res {
+            Err(e) => {
+                self.stats.hit("op.push-refused-blind");
+                self.stats.hit(crate::world_search::classify_refusal(ml, &info));
+                self.judge_refuse(&den, ml, &info.pos, &e)?;
+                self.expect_spy(&[])?;
+            }
+            Ok(()) => {
+                self.stats.hit("op.push-accepted-blind");
+                self.invalidate();
+                let applied = if den.known && den.allowed.len() == 1 {
+                    match crate::full::move_of(&den.allowed[0]) {
+                        Some(m) => m,
+                        None => self.chain.get(len0),
+                    }
+                } else {
+                    self.chain.get(len0)
+                };
+                self.judge_accept(&den, &applied, ml, &info.pos)?;
+                self.note_move_kind(&applied, true);
+                self.ref_accept(applied, false)?;
+                let k = self.rc.keys.last().unwrap().clone();
+                self.expect_spy(&[SpyEv::Push(k)])?;
+            }
+        }
+        Ok(Exec::Done)
+    }
+
+    fn op_pop_blind(&mut self) -> R {
+        let len0 = self.rc.len();
+        if len0 == 0 {
+            return Ok(Exec::Skipped);
+        }
+        if self.rc.outcome.is_some() && !self.on(C13) {
+            // whether the pop clears the outcome is C13's business; without reading it back the
+            // reference could not follow the library, so this combination is not done blind
+            return Ok(Exec::Skipped);
+        }
+        let left_key = self.rc.keys[len0].clone();
+        let left = self.rc.expect_board(len0).clone();
+        let got = self.chain.pop();
+        let spy_got = self.spy.pop();
+        if got.is_some() != spy_got.is_some() {
+            panic!("HARNESS: MoveChain and BaseMoveChain<SpyRepeat> disagree on pop");
+        }
+        self.stats.hit("op.pop-blind");
+        self.invalidate();
+        let want_mv = self.rc.moves[len0 - 1];
+        if self.on(C13) && got != Some(want_mv) {
+            return Err(self.fail(
+                C13,
+                "refinement",
+                format!("pop() returned {:?}, the latest accepted move is {}", got.map(|m| m.to_string()), want_mv),
+            ));
+        }
+        self.note_move_kind(&want_mv, false);
+        self.rc.truncate(len0 - 1);
+        // the statement says a pop clears the stored outcome; the next observation checks it
+        self.rc.outcome = None;
+        if self.popped.len() >= 6 {
+            self.popped.remove(0);
+        }
+        self.popped.push(left);
+        self.expect_spy(&[SpyEv::Pop(left_key)])?;
+        Ok(Exec::Done)
     }
 
     fn refusal_is_atomic(&mut self, before: &Full, len0: usize, count0: usize, what: &str, undo_path: bool) -> Result<(), Violation> {
@@ -1841,6 +1968,15 @@ impl World {
     // -------------------------------------------------------------- end of run
 
     pub fn finish(&mut self) -> Result<(), Violation> {
+        if self.blind {
+            // a run that ends inside a blind burst is observed now
+            self.blind = false;
+            self.invalidate();
+            self.check_invariants()?;
+            if self.poisoned {
+                return Ok(());
+            }
+        }
         while !self.searchers.is_empty() {
             self.retire_searcher(0)?;
         }
